@@ -304,7 +304,7 @@ def np_spelled(item, rng, p=0.25):
 
 def big_universe(fd, rng):
     """a few LONG dimensions (tens to hundreds of items): large arrays reach size-dependent code paths"""
-    n = {"a": int(rng.integers(30, 60)), "b": int(rng.integers(40, 120)), "c": int(rng.integers(20, 40)), "d": int(rng.integers(3, 9))}
+    n = {"a": int(rng.integers(40, 72)), "b": int(rng.integers(60, 140)), "c": int(rng.integers(24, 48)), "d": int(rng.integers(3, 9))}
     start = int(rng.integers(1900, 2000))
     return {
         "a": fd.Dimension(letter="a", name=NAMES["a"], items=[f"a{i:03d}" for i in rng.permutation(n["a"])], dtype=str),
